@@ -27,8 +27,14 @@ Inductive vsrc :=
                              or a struct holding one): the result ALIASES the receiver's memory *)
 | VRecvCopy (p : nat)     (* the receiver's field [p] copied by value (string, number, bool: nothing shared) *)
 | VFresh                  (* built without reading receiver memory: from the override, constants, fresh allocations *)
-| VMixFresh (p : nat)     (* freshly allocated, contents computed from the override AND the receiver's field [p]
-                             (maps.Clone + inserts; expressions compiled in the shared environment) *)
+| VMixFresh (p : nat)     (* freshly allocated, contents computed from the override AND the receiver's field [p]:
+                             a shallow, element-wise copy in any spelling (maps.Clone, make + maps.Copy, copy(),
+                             append(fresh, src...), slices.Insert/Concat on fresh, an assignment loop) plus inserts, or
+                             expressions compiled in the shared environment.  The CONTAINER is new; what its elements
+                             refer to is shared with the receiver (depth >= 1, printed next to the row).  Sharing below
+                             the container is tolerated at every depth under ONE condition, which [src_ok] demands:
+                             field [p] has no writers, i.e. no method has a write effect that can hit memory reachable
+                             from the receiver's field [p] (elements and all they refer to included) *)
 | VMixAlias (p : nat)     (* computed from the override and the receiver's field [p] and MAY SHARE MEMORY with it:
                              append(a.x[:0], …), slices.Clip(a.x), a sub-slice, an unanalysed callee; an override is
                              written IN PLACE *)
